@@ -175,6 +175,21 @@ def check(case, ctx):
     parsed = {k: dict(v) for k, v in kw["coords"].items()}
     if parsed != exp:
         raise Violation("parser output differs from the convention's table", got=parsed, expected=exp, conv=conv)
+    # the other public ways in: the combined parser (SGRID first, COMODO as fall-back) and the per-axis functions of the
+    # convention modules
+    _, kw_all = must_return("parse_metadata", metadata_parsers.parse_metadata, ds)
+    if {k: dict(v) for k, v in kw_all["coords"].items()} != exp:
+        raise Violation("parse_metadata differs from the convention's table", got={k: dict(v) for k, v in kw_all["coords"].items()}, expected=exp, conv=conv)
+    from xgcm import comodo as comodo_mod, sgrid as sgrid_mod
+
+    cmod = comodo_mod if conv == "comodo" else sgrid_mod
+    names_got = must_return("get_all_axes", cmod.get_all_axes, ds)
+    if set(names_got) != set(exp):
+        raise Violation("get_all_axes differs from the axes the convention prescribes", got=sorted(names_got), expected=sorted(exp), conv=conv)
+    for name in exp:
+        per_axis = must_return("get_axis_positions_and_coords", cmod.get_axis_positions_and_coords, ds, name)
+        if dict(per_axis) != exp[name]:
+            raise Violation("get_axis_positions_and_coords differs from the convention's table", axis=name, got=dict(per_axis), expected=exp[name], conv=conv)
 
     # differential: operations on the autoparsed grid == on the explicitly built grid
     explicit = must_return("Grid(coords=expected)", Grid, ds, coords={k: dict(v) for k, v in exp.items()}, periodic=False,
